@@ -802,7 +802,8 @@ func (m *Memory) checkGc() {
 			i := 0
 
 			// go 1 by 1 and delete stuff
-			for id := m.nextId.Load() - uint64(m.Cfg.MaxRecords); id > 0; id-- {
+			// the newest record is nextId-1
+			for id := m.nextId.Load() - 1 - uint64(m.Cfg.MaxRecords); id > 0; id-- {
 				i++
 
 				// time
